@@ -931,6 +931,9 @@ func (self *LockResultCommandData) GetArrayValue() [][]byte {
 			index += 4
 			continue
 		}
+		if valueLen > len(self.Data)-index-4 {
+			break
+		}
 		values = append(values, self.Data[index+4:index+4+valueLen])
 		index += valueLen + 4
 	}
@@ -949,6 +952,9 @@ func (self *LockResultCommandData) GetKVValue() map[string][]byte {
 			index += 4
 			continue
 		}
+		if keyLen > len(self.Data)-index-8 {
+			break
+		}
 		key := string(self.Data[index+4 : index+4+keyLen])
 		index += keyLen + 4
 
@@ -956,6 +962,9 @@ func (self *LockResultCommandData) GetKVValue() map[string][]byte {
 		if valueLen == 0 {
 			index += 4
 			continue
+		}
+		if valueLen > len(self.Data)-index-4 {
+			break
 		}
 		values[key] = self.Data[index+4 : index+4+valueLen]
 		index += valueLen + 4
